@@ -11,7 +11,10 @@
     separately, a `debugfs -w -f` script (mkdir/write/symlink/mknod) populate an image.  Observations: independent reader
     (reader/ext4read.py) listing incl. content digests and mapped ranges, Ext4Abs!Consistent evaluated by TLC (lib/absstate),
     e2fsck -fn, byte comparison of a second identical run, `debugfs rdump` / `dump -p` / `cat` re-read from the host.
-    TLC evaluates Trace_TreeGen on one line per case and names the clauses that fail."""
+    TLC evaluates Trace_TreeGen on one line per case and names the clauses that fail.
+    Hard-link groups range over every non-directory file type (LinkKinds): besides the seeded simulations, sub-universe K is
+    emitted by TLC in model-checking mode (every link-shape tree of a small configuration, independent of the seed) and
+    sub-universe L simulates larger trees with many names per inode; the debugfs front end uses `ln` (+ `sif links_count`)."""
 import os, sys, json, re, shutil, stat, hashlib, time, concurrent.futures as cf
 from common import VERIF, fast_tmp, seed, die_broken, NPROC, tool_env, SCRATCH
 from common import run as sh
@@ -56,7 +59,8 @@ UNIVERSE = dict(
     MtimeClasses='{"t1970", "t2001", "t2020", "t2038"}',
     XattrClasses='{"none", "small", "two", "blk", "near", "ea"}',
 )
-DEVS = dict(DevModeMask777="FALSE", DevHardlinkByInoOnly="FALSE", DevHoleAsZeros="FALSE", DevRdumpDropsTail="FALSE", DevRdumpSymlinkOwner="FALSE")
+NONDIR = '{"reg", "lnk", "chr", "blk", "fifo", "sock"}'
+DEVS = dict(LinkKinds=NONDIR, PopLinkTypes=NONDIR, DevModeMask777="FALSE", DevHardlinkByInoOnly="FALSE", DevHoleAsZeros="FALSE", DevRdumpDropsTail="FALSE", DevRdumpSymlinkOwner="FALSE")
 
 
 def load_known(vd):
@@ -81,8 +85,8 @@ MC_LINK = dict(MC_SMALL, MaxNodes=6, MaxFan=2, MaxMounts=2, SizeClasses='{"b1025
 
 
 def write_cfg(path, consts, devs, invariants, spec="Spec", kindseq=None, post=None):
-    c = dict(consts)
-    c.update(DEVS)
+    c = dict(DEVS)
+    c.update(consts)
     c.update(devs)
     if kindseq:
         c["KindSeq"] = None
@@ -136,6 +140,18 @@ def model_check(tier, ev, vd, work):
         if r2.violated != inv:
             die_broken("MC_TreeGen with %s = TRUE did not produce the %s counterexample: the invariant does not bind (%s %s)\n%s" % (dev, inv, r2.violated, r2.error, r2.out[-800:]))
         ces.append(dev)
+    # the link-group partition binds for every file type: leaving any one type out of the hdlinks lookup (the pinned create_inode.c
+    # leaves symlinks out; a lookup for regular files only is the other extreme) must produce a counterexample
+    kinds = json.loads(NONDIR.replace("{", "[").replace("}", "]"))
+    for lt in [[k for k in kinds if k != x] for x in kinds] + [["reg"]]:
+        tag = "PopLinkTypes=" + "+".join(lt)
+        c2 = os.path.join(work, "mc_lt_%s.cfg" % "_".join(lt))
+        write_cfg(c2, MC_SMALL, {"PopLinkTypes": "{" + ", ".join('"%s"' % k for k in lt) + "}"}, invs, kindseq="KindSeqMC")
+        r2 = T.tlc(mod, c2, workers=2, timeout=900, xmx="2g")
+        if r2.violated != "InvPopulateExact":
+            die_broken("MC_TreeGen with %s did not produce the InvPopulateExact counterexample: the link-group partition does not bind (%s %s)\n%s"
+                       % (tag, r2.violated, r2.error, r2.out[-800:]))
+        ces.append(tag)
     ev.cov["deviation_counterexamples"] = ces
 
 
@@ -147,6 +163,8 @@ def universe(probe):
         c["XattrClasses"] = '{"none"}'
     elif not probe["big_xattr"]:
         c["XattrClasses"] = c["XattrClasses"].replace(', "ea"', "")
+    if not probe["link_symlink"]:
+        c["LinkKinds"] = NONDIR.replace('"lnk", ', "")          # the host gives a symlink no second name: no such group in the universe
     return c
 
 
@@ -156,6 +174,7 @@ def emitted(ev, r, label):
 
 
 def emit_trees(n, work, sd, probe, mounts=0, tag="emit", consts=None, inv="EmitTree", kindseq="KindSeqSim"):
+    """n simulated behaviours of the builder (seed sd); n = None: model-checking mode, every finished tree of the configuration"""
     c = universe(probe)
     c["MaxMounts"] = mounts
     if consts:
@@ -163,8 +182,11 @@ def emit_trees(n, work, sd, probe, mounts=0, tag="emit", consts=None, inv="EmitT
     cfg = os.path.join(work, tag + ".cfg")
     write_cfg(cfg, c, {}, [inv], kindseq=kindseq)
     out = os.path.join(work, tag + "_cat.json")
-    r = T.tlc(os.path.join(SPEC, "Emit_TreeGen.tla"), cfg, workers=1, timeout=1800, xmx="2g", simulate=n, depth=6 * c["MaxNodes"] + 10,
-              env={"OUT": out}, seedval=sd)
+    if n is None:
+        r = T.tlc(os.path.join(SPEC, "Emit_TreeGen.tla"), cfg, workers=1, timeout=1800, xmx="2g", env={"OUT": out})
+    else:
+        r = T.tlc(os.path.join(SPEC, "Emit_TreeGen.tla"), cfg, workers=1, timeout=1800, xmx="2g", simulate=n, depth=6 * c["MaxNodes"] + 10,
+                  env={"OUT": out}, seedval=sd)
     if not r.ok or not os.path.exists(out):
         die_broken("TLC failed on Emit_TreeGen: %s\n%s" % (r.error or r.violated, r.out[-1500:]))
     cat = json.load(open(out))
@@ -210,12 +232,43 @@ def populate(b, prof, frontend, img, kb, root, script):
         return rc, "mke2fs: " + err.decode("utf8", "replace")[-600:]
     rc, out, err = sh([os.path.join(b, "debugfs", "debugfs"), "-w", "-f", script, img], env=env, timeout=300)
     txt = (out + err).decode("utf8", "replace")
+    FULL = "No free space in the directory"
+    lns, sifs = json.load(open(script + ".links")) if os.path.exists(script + ".links") else ([], [])
+    if rc == 0 and lns:
+        # `ln` does not grow a full directory (ext2fs_link returns EXT2_ET_DIR_NO_SPACE; write / mkdir / symlink / mknod expand and
+        # retry by themselves).  What the user of debugfs does: look which names are missing (messages go to stderr and cannot be
+        # attributed to a command, so a read-only session asks for every name), repeat those after `expand_dir`, store the link counts
+        dfs = os.path.join(b, "debugfs", "debugfs")
+        full = [l for l in txt.splitlines() if l.startswith("make_link:") and FULL in l]
+        again = []
+        if full:
+            probe = "".join("imap %s/%s\n" % (x["dir"].rstrip("/"), x["name"]) for x in lns)
+            rcp, outp, errp = sh([dfs, "-f", "-", img], env=env, timeout=300, input=probe.encode())
+            found, k = [False] * len(lns), -1
+            for l in outp.decode("utf8", "replace").splitlines():
+                if l.startswith("debugfs: imap "):
+                    k += 1
+                elif 0 <= k < len(lns) and l.startswith("Inode "):
+                    found[k] = True
+            again = [x for x, f in zip(lns, found) if not f]
+            if rcp != 0 or k != len(lns) - 1 or len(again) != len(full):
+                return 1, "ln: %d requests answered '%s', %d names missing" % (len(full), FULL, len(again))
+        s2 = "".join("cd %s\nexpand_dir %s\nln %s %s\n" % (x["dir"], x["dir"], x["src"], x["name"]) for x in again) + "".join(x + "\n" for x in sifs)
+        with open(script + ".2", "w") as f:
+            f.write(s2)
+        rc, out, err = sh([dfs, "-w", "-f", script + ".2", img], env=env, timeout=300)
+        txt = "\n".join(l for l in txt.splitlines() if l not in full) + "\n" + (out + err).decode("utf8", "replace")
     # debugfs exits 0 whatever its commands report: a command that printed an error is a failed request
     bad = [l for l in txt.splitlines() if not l.startswith("debugfs: ")          # echo of the script line
-           and re.search(r"^(\w+): .*(while|Invalid|No space|not found|exists|denied)|Usage:|Unknown request", l)]
+           and re.search(r"^(\w+): .*(while|Invalid|No space|No free space|not found|exists|denied)|Usage:|Unknown request", l)]
     if rc == 0 and bad:
         rc = 1
     return rc, "\n".join(bad)[-600:] if bad else txt[-300:]
+
+
+def kind_of(tree, n):
+    """the file type of a name: that of the node a "hard" node names (TreeGen!TypeOfNode)"""
+    return next(m for m in tree if m["id"] == n["link"])["kind"] if n["kind"] == "hard" else n["kind"]
 
 
 def image_listing(st, bs):
@@ -245,6 +298,8 @@ def run_case(a):
     if frontend == "debugfs":
         with open(script, "w") as f:
             f.write(G.debugfs_script(tree, conc, root))
+        with open(script + ".links", "w") as f:
+            json.dump(G.debugfs_links(tree, conc), f)
     kb = image_kb(prof, conc)
     line = {"e": "case", "key": "%s/%s/%s" % (tid, pname, frontend), "tid": tid, "profile": pname, "frontend": frontend,
             "cfg": {"bs": prof["bs"], "ea_inode": prof.get("ea_inode", 0), "inline": prof.get("inline", 0), "quota": prof.get("quota", 0),
@@ -288,7 +343,7 @@ def run_case(a):
             info["rdump_out"] = "\n".join(msgs)[-600:]
             line["rdump"] = [{k: r[k] for k in ("path", "type", "size", "digest", "target", "perm", "uid", "gid")} for r in G.listing(out_dir)]
             # dump -p of every regular file in one session, cat of the first three
-            regs = [c for n, c in zip(tree, conc) if n["kind"] in ("reg", "hard")]
+            regs = [c for n, c in zip(tree, conc) if kind_of(tree, n) == "reg"]
             if regs:
                 dd = os.path.join(wd, "dump")
                 os.makedirs(dd)
@@ -413,7 +468,8 @@ def canaries(lines, cat):
         add("Symlinks", l, mut(lambda n: n["kind"] == "lnk", "target", lambda v: v + "x"))
         add("Rdev", l, mut(lambda n: n["kind"] in ("chr", "blk"), "rdev", lambda v: [v[0], v[1] + 1]))
         add("Xattrs", l, mut(lambda n: n["xattr"] != "none", "xattrs", lambda v: v[:-1]))
-        add("HardLinks", l, mut(lambda n: n["kind"] == "hard", "ino", lambda v: v + 1000))
+        # (a further name of a regular file: a two-name symlink group torn apart is, by design, reported as DevSymlinkLinksSplit)
+        add("HardLinks", l, mut(lambda n, t_=l["tree"]: n["kind"] == "hard" and kind_of(t_, n) == "reg", "ino", lambda v: v + 1000))
         def holes(c):
             for n in c["tree"]:
                 if n["kind"] == "reg" and cat["sizes"][n["content"]]["holes"]:
@@ -504,7 +560,7 @@ def run(tier):
         #   A  what every profile stores          -> profiles without ea_inode and with blocks < 4 KiB
         #   B  A + the large xattr value class    -> profile ea_inode
         #   C  everything                         -> the 4 KiB profile, and one 1 KiB profile (there most trees of C are refused, as modelled)
-        nA, nB, nC, nW = (32, 8, 8, 2) if tier == "quick" else (200, 60, 60, 12)
+        nA, nB, nC, nW, nL = (32, 8, 8, 2, 6) if tier == "quick" else (200, 60, 60, 12, 40)
         profiles = QUICK_PROFILES if tier == "quick" else list(PROFILES)
         profA = [p for p in profiles if not PROFILES[p].get("ea_inode") and PROFILES[p]["bs"] < 4096]
         small = dict(TargetClasses='{"t1", "t59", "t60", "t61", "t255", "t1023"}')
@@ -519,6 +575,16 @@ def run(tier):
                     ("W", dict(n=nW, tag="emitW", kindseq="KindSeqWide",
                                consts=dict(small, MinNodes=40, MaxNodes=60, MaxFan=60, MaxDepth=2, NameClasses='{"n64", "n255"}',
                                            SizeClasses='{"z0", "b1", "b61", "b1025"}', XattrClasses='{"none", "small"}')))]
+            # K: the link-shape trees, emitted in model-checking mode (every tree of the configuration, whatever the seed): for every
+            #    linkable file type a group of two or three names inside one directory, across directories, above / below its first name
+            jobs.append(("K", dict(n=None, tag="emitK", inv="EmitLinkShapes", kindseq="KindSeqShapes",
+                                   consts=dict(MinNodes=2, MaxNodes=3, MaxDepth=2, MaxFan=3, NameClasses='{"n8"}', SizeClasses='{"b1025"}',
+                                               TargetClasses='{"t61"}', DevClasses='{"dev_small"}', ModeClasses='{"m4755"}', OwnerClasses='{"user"}',
+                                               MtimeClasses='{"t2001"}', XattrClasses='{"none"}'))))
+            # L: larger trees made of link groups of every file type (many names per inode, all attribute classes)
+            jobs.append(("L", dict(n=nL, tag="emitL", kindseq="KindSeqLinks",
+                                   consts=dict(small, MinNodes=10, MaxNodes=18, MaxDepth=3, MaxFan=12, SizeClasses='{"z0", "b61", "b1025", "sp_blk"}',
+                                               XattrClasses='{"none", "small"}'))))
             if probe["tmpfs"]:
                 # X: trees spanning mount points (fresh tmpfs instances number their inodes alike) on which the device half of the
                 #    hard-link key matters; TLC keeps only those (Emit_TreeGen!EmitSensitive)
@@ -532,9 +598,22 @@ def run(tier):
                     ts = ts[:3 if tier == "quick" else 40]
                 if tag == "C":
                     sets_cat = (ts, cat_, r)
-                emitted(ev, r, "sub-universe %s: %d simulated behaviours of the tree builder (seed %d), %d distinct finished trees used" % (tag, d_["n"], seed(), len(ts)))
+                emitted(ev, r, ("sub-universe %s: every finished tree of the configuration (model-checking mode), %d trees" % (tag, len(ts))) if d_["n"] is None else
+                        "sub-universe %s: %d simulated behaviours of the tree builder (seed %d), %d distinct finished trees used" % (tag, d_["n"], seed(), len(ts)))
                 sets.append((tag, ts))
             ev.cov["cross_device_trees"] = len(sets[-1][1]) if sets[-1][0] == "X" else 0
+            # guard on the universe (not a verdict): the link-shape trees cover every linkable type, inside one directory and across
+            kinds = set(json.loads(uni.get("LinkKinds", NONDIR).replace("{", "[").replace("}", "]")))
+            shapes = set()
+            for t in dict(sets)["K"]:
+                for n in t:
+                    if n["kind"] == "hard":
+                        first = next(m for m in t if m["id"] == n["link"])
+                        shapes.add((first["kind"], "within" if first["parent"] == n["parent"] else "across"))
+            if shapes != {(k_, w_) for k_ in kinds for w_ in ("within", "across")}:
+                die_broken("the link-shape sub-universe does not cover every linkable type inside one directory and across directories: %s" % sorted(shapes))
+            ev.cov["link_shapes"] = sorted("%s/%s" % x for x in shapes)
+            ev.cov["link_kinds"] = sorted(kinds)
             ev.cov["trees_per_sub_universe"] = {t_: len(x_) for t_, x_ in sets}
             ts, cat, r = sets_cat
             trees, concs, cases, tags = [], [], [], []
@@ -554,6 +633,10 @@ def run(tier):
                         ps = ["ea_inode"]
                     elif tag == "X":
                         ps = ["ext4_1k"]
+                    elif tag == "K":
+                        ps = profA + ["ext4_4k"] if tier != "quick" else [profA[(k + seed()) % len(profA)]]
+                    elif tag == "L":
+                        ps = profA if tier != "quick" else list(dict.fromkeys([profA[(k + seed()) % len(profA)], "ext4_4k"]))
                     else:
                         ps = ["ext4_4k", profA[(k + seed()) % len(profA)]]
                     for p in ps:
@@ -629,7 +712,7 @@ def run(tier):
         for k in sorted(confirmed):
             clauses, l, i = confirmed[k]
             for c in clauses:
-                key = "%s/%s/%s" % (l["frontend"], l["profile"], c)
+                key = c if c.startswith("Dev") else "%s/%s/%s" % (l["frontend"], l["profile"], c)     # a named deviation is its own key
                 if key in reported:
                     continue
                 reported.add(key)
@@ -660,7 +743,8 @@ def run(tier):
             if nontrivial_tree(t, cat):
                 ev.nontrivial(json.dumps(t, sort_keys=True))
         ev.cov["rule"] = ("universe = finished trees of the TreeGen builder (constants %s) simulated by TLC with VERIF_SEED; each tree x profile x "
-                          "{mke2fs -d, debugfs script} is one evaluation (quick: two seeded profiles per tree); non-trivial = distinct tree holding at "
+                          "{mke2fs -d, debugfs script} is one evaluation (quick: two seeded profiles per tree); sub-universe K (link-shape trees, one profile each in quick) "
+                          "is enumerated by TLC in model-checking mode and does not depend on the seed; non-trivial = distinct tree holding at "
                           "least one hard-link group, one sparse file and one special file" % json.dumps({k: v for k, v in UNIVERSE.items() if k.startswith(("M",))}, sort_keys=True))
         for l in ok_cases[:3]:
             ev.sample({"case": l["key"], "nodes": [(n["kind"], n["content"], n["mode"], n["owner"], n["mtime"], n["xattr"]) for n in l["tree"]],
@@ -671,9 +755,15 @@ def run(tier):
             "when the scratch filesystem answers SEEK_DATA/SEEK_HOLE (probe: %s) and only for holes the host really reports" % probe["seek_hole"],
             "user xattrs are part of the universe only when the scratch filesystem stores them (probe: %s); symlinks and special files carry none (the kernel refuses user.* there)" % probe["user_xattr"],
             "attributes of the root directory of the source tree are not compared (mke2fs -d copies only its xattrs); /lost+found is expected in every image",
-            "debugfs front end = mkdir/write/symlink/mknod issued from the target directory (mknod does not split paths); those commands take no owner, "
-            "time, xattr, hard-link or socket input, so for that front end only names, types, device numbers, content, length, holes, link targets and "
-            "(write) permission bits are compared",
+            "debugfs front end = mkdir/write/symlink/mknod/ln issued from the target directory (mknod does not split paths); those commands take no owner, "
+            "time, xattr or socket input, so for that front end only names, types, device numbers, content, length, holes, link targets, (write) "
+            "permission bits and the hard-link groups are compared",
+            "debugfs ln is the raw operation it is documented to be: it adds a name, does not grow a full directory and does not touch i_links_count; "
+            "the script does what its user must do -- a request answered 'No free space in the directory' is repeated after expand_dir (which names "
+            "are missing is asked in a read-only session), and `sif <first name> links_count <n>` stores the count of every group at the end; the "
+            "obligations are the inode each name leads to, the file type of its entry (Consistent / e2fsck) and a consistent filesystem",
+            "hard-link groups range over the kinds in LinkKinds = every non-directory type; symlinks are in it only when link(2) on the scratch "
+            "filesystem gives a symlink a second name (probe: %s)" % probe["link_symlink"],
             "a request the library refuses (symlink target >= block size; xattr value that needs ea_inode without the feature) carries no obligation; "
             "every other failure to populate is a violation (clause Accepted)",
             "reproducibility: same tree, -U, -E hash_seed, E2FSPROGS_FAKE_TIME, MKE2FS_DETERMINISTIC; two fresh runs compared byte for byte",
